@@ -104,8 +104,8 @@ theorem sender_checked (dedup : Bool) (s : St) (tx : Tx) (h : verifySigs dedup s
 /-- **effect_implies_authorised**: a transaction changes the state (applyTx returns ok) only if its
     signature check passed — for every tx kind, boxes included (the box itself; each sub-tx goes
     through the same `applySimple`). -/
-theorem effect_implies_authorised (c : Ctx) (s s' : St) (tx : Tx) (g : Nat)
-    (h : applyTx c s tx = .ok (s', g)) : verifySigs c.dedup s tx = none := by
+theorem effect_implies_authorised (c : Ctx) (s s' : St) (gp gp' : Nat) (tx : Tx) (g : Nat)
+    (h : applyTx c s gp tx = .ok (s', gp', g)) : verifySigs c.dedup s tx = none := by
   unfold applyTx at h
   cases hv : verifySigs c.dedup s tx with
   | none => rfl
@@ -114,8 +114,8 @@ theorem effect_implies_authorised (c : Ctx) (s s' : St) (tx : Tx) (g : Nat)
     · simp [hv] at h
     · unfold applySimple at h; simp [hv] at h
 
-theorem sub_effect_implies_authorised (c : Ctx) (s s' : St) (tx : Tx) (g : Nat)
-    (h : applySimple c s tx = .ok (s', g)) : verifySigs c.dedup s tx = none := by
+theorem sub_effect_implies_authorised (c : Ctx) (s s' : St) (gp gp' : Nat) (tx : Tx) (g : Nat)
+    (h : applySimple c s gp tx = .ok (s', gp', g)) : verifySigs c.dedup s tx = none := by
   unfold applySimple at h
   cases hv : verifySigs c.dedup s tx with
   | none => rfl
